@@ -96,19 +96,20 @@ func loadProgram(repo string) (*Program, error) {
 		indexClosureLabels(P.ByPath[path].Syntax)
 	}
 	// index functions
-	for fn := range ssautil.AllFunctions(prog) {
-		if fn.Pkg == nil && fn.Origin() == nil && fn.Parent() == nil {
-			// synthetic wrappers etc.
+	indexFuncs := func() {
+		P.Funcs = map[string][]*ssa.Function{}
+		for fn := range ssautil.AllFunctions(prog) {
+			k := funcKey(fn)
+			if k != "" {
+				P.Funcs[k] = append(P.Funcs[k], fn)
+			}
 		}
-		k := funcKey(fn)
-		if k != "" {
-			P.Funcs[k] = append(P.Funcs[k], fn)
+		for k := range P.Funcs {
+			fs := P.Funcs[k]
+			sort.Slice(fs, func(i, j int) bool { return fs[i].String() < fs[j].String() })
 		}
 	}
-	for k := range P.Funcs {
-		fs := P.Funcs[k]
-		sort.Slice(fs, func(i, j int) bool { return fs[i].String() < fs[j].String() })
-	}
+	indexFuncs()
 	// contracts
 	for _, path := range P.Order {
 		p := P.ByPath[path]
@@ -120,6 +121,9 @@ func loadProgram(repo string) (*Program, error) {
 				}
 			}
 		}
+	}
+	if findFuncRenames(P) {
+		indexFuncs()
 	}
 	return P, nil
 }
@@ -156,7 +160,11 @@ func funcKey(fn *ssa.Function) string {
 		}
 		return ""
 	}
-	return pkg.Pkg.Name() + "." + recvPrefix(o) + o.Name()
+	k := pkg.Pkg.Name() + "." + recvPrefix(o) + o.Name()
+	if was, ok := funcRenamed[k]; ok {
+		return was // a function under contract that was renamed keeps the key its contract uses (names.go)
+	}
+	return k
 }
 
 func recvPrefix(fn *ssa.Function) string {
